@@ -36,6 +36,9 @@ class St10:
 
 KI = 5
 KB = Bits4(3)
+K3 = Bits8(3)
+K1 = Bits8(1)
+KA = Bits8(200)
 '''
 
 # leaf -> (source text, class tag used in signatures)
@@ -111,6 +114,20 @@ for first in ("5", "s.in4b[0:3]", "3"):
       wout = 8 if use.startswith("s.in8") else (3 if "[0:3]" in use else 4)
       RAW.append((f"tmp-reassign:{first}|{second}|{use}", wout, [f"t = {first}", "if s.in1:", f"  t = {second}", "{o} @= " + use]))
 
+# negative literals and constants, folded constants of explicit width, constant lists, struct literals, a temporary that changes
+# its kind on the loop back-edge, a variable part select wider than the signal
+for w, rhs in [(8, "-200"), (8, "-1"), (8, "~200"), (8, "~0"), (4, "-8"), (4, "-9"), (7, "1 - 129"), (1, "1 - 3"), (2, "0 - 2"), (8, "KI - 6"), (4, "-KI"),
+               (3, "K3 + K1"), (8, "K3 + K1"), (9, "KA + KA"), (8, "KA + KA"), (8, "s.in8 + (K3 + K1)"), (8, "s.in8 + (KI + 1)"), (8, "KB + 1"),
+               (16, "s.clst[0 + 1]"), (8, "s.clst[0 + 1]"), (8, "s.clst[1]"), (16, "s.clst[1]"),
+               (6, "s.in4a[s.in4b[0:2]:s.in4b[0:2] + 6]"), (2, "s.in4a[s.in4b[0:2]:s.in4b[0:2] + 2]"),
+               (6, "St10(300, 1)"), (6, "St10(s.in4a, 5)"), (6, "St10(3, s.in1)")]:
+  RAW.append((f"const:o{w}<-{rhs}", w, ["{o} @= " + rhs]))
+for w, cmp_ in [(1, "s.in8 == -1"), (1, "s.in4a < -1"), (1, "s.in8 == ~0"), (1, "s.in8 != 1 - 2")]:
+  RAW.append((f"const:o{w}<-{cmp_}", w, ["{o} @= " + cmp_]))
+RAW.append(("tmp-backedge:0|s.in1", 8, ["t = 0", "for i in range(2):", "  {o} @= t", "  t = s.in1"]))
+RAW.append(("tmp-backedge:s.in4a|s.in8", 8, ["t = s.in4a", "for i in range(2):", "  {o} @= zext(t, 8)", "  t = s.in8"]))
+RAW.append(("tmp-ifexp-literals", 8, ["t = 1 if s.in1 else 200", "{o} @= t"]))
+
 
 def block_src(k, text, form):
   name, w = form
@@ -140,7 +157,7 @@ def component_src(items):
   """items: [(k, text, form)]"""
   out = [HEADER, "class C10( Component ):", "  def construct( s ):",
          "    s.in4a = InPort( Bits4 )", "    s.in4b = InPort( Bits4 )", "    s.in8 = InPort( Bits8 )", "    s.in1 = InPort( Bits1 )",
-         "    s.st = InPort( St10 )", "    s.lst = [ InPort( Bits4 ) for _ in range(2) ]"]
+         "    s.st = InPort( St10 )", "    s.lst = [ InPort( Bits4 ) for _ in range(2) ]", "    s.clst = [ Bits8(1), Bits8(2) ]"]
   decls, blocks = [], []
   for k, text, form in items:
     d, b = block_src(k, text, form)
